@@ -388,6 +388,10 @@ class Ctx:
         self.notes = {}
         self.known = Known()
         self.escalated = False
+        if os.environ.get("VERIF_FORCE_ESCALATED"):
+            # second pass of check.py: files the model mirrors differ from the validated text (vlib/anchors.py)
+            self.escalated = True
+            self.notes["modelled_source_changed"] = os.environ["VERIF_FORCE_ESCALATED"].split(",")
         os.makedirs(os.path.join(OUT, pid), exist_ok=True)
 
     @property
